@@ -3,6 +3,11 @@ C16 — moment-reduction matrices express multiplier products exactly.
 Property theorems about `Model/SymCorr.lean`.
 -/
 import SageoptModel.Model.SymCorr
+import SageoptModel.Lemmas.SigSem
+import SageoptModel.Lemmas.SymCorrMatch
+import SageoptModel.Lemmas.SymCorrRcv
+import SageoptModel.Lemmas.SymCorrMra
+import SageoptModel.Lemmas.SymCorrExample
 
 namespace Sageopt.Props.C16
 open Sageopt.Sig Sageopt.SymCorr
@@ -14,7 +19,187 @@ theorem rowMatch_self (tol : Rat) (htol : 0 < tol) (row : Exp) : rowMatch tol ro
   | cons a as ih =>
     simp only [rowMatch, List.zipWith_cons_cons, List.all_cons, Bool.and_eq_true] at ih ⊢
     refine ⟨?_, ih⟩
-    have h0 : a - a = 0 := Rat.sub_self
-    simp [absQ, h0, htol]
+    simp [absQ, htol]
+
+/-- the tolerance the code uses: 10^-(7+1) -/
+def tol8 : Rat := 1 / (10 ^ (decimals + 1) : Nat)
+
+/-- on 7-decimal-rounded rows tolerance matching is exact matching: two distinct grid points differ by
+    at least 1e-7 > 1e-8 -/
+theorem tol_match_exact (r1 r2 : Exp) (h1 : OnGrid r1) (h2 : OnGrid r2) (hl : r1.length = r2.length) :
+    rowMatch tol8 r1 r2 = true ↔ r1 = r2 := by
+  have tol8_eq : tol8 = scTol := rfl
+  rw [tol8_eq]; exact sc_rowMatch_iff r1 r2 h1 h2 hl
+
+/-- `row_correspondence` returns exactly the rows of alpha1 that occur in alpha2, with the index of the
+    FIRST occurrence -/
+theorem row_correspondence_spec (n : Nat) (a1 a2 : List Exp)
+    (h1 : ∀ r ∈ a1, OnGrid r ∧ r.length = n) (h2 : ∀ r ∈ a2, OnGrid r ∧ r.length = n) :
+    let res := rowCorrespondence tol8 a1 a2
+    res.1.length = res.2.length ∧
+    (∀ p ∈ res.1.zip res.2, a1.getD p.1 [] = a2.getD p.2 [] ∧ p.1 < a1.length ∧ p.2 < a2.length ∧
+        ∀ j < p.2, a2.getD j [] ≠ a1.getD p.1 []) ∧
+    (∀ i < a1.length, a1.getD i [] ∈ a2 → i ∈ res.1) := by
+  intro res
+  have hres : res = ((scPairs scTol a1 a2).map (·.1), (scPairs scTol a1 a2).map (·.2)) := rfl
+  rw [hres]
+  refine ⟨by simp, ?_, ?_⟩
+  · intro p hp
+    rw [sc_zip_pairs, sc_mem_pairs] at hp
+    obtain ⟨hlt, hf⟩ := hp
+    rw [sc_findRow_some n _ a2 (h1 _ (List.getElem_mem hlt)) h2] at hf
+    obtain ⟨hlt2, heq, hfirst⟩ := hf
+    rw [sc_getD_lt _ _ _ hlt, sc_getD_lt _ _ _ hlt2]
+    refine ⟨heq.symm, hlt, hlt2, ?_⟩
+    intro j hj
+    rw [sc_getD_lt _ _ _ (show j < a2.length by omega)]
+    exact hfirst j hj
+  · intro i hi hmem
+    rw [sc_getD_lt _ _ _ hi] at hmem
+    obtain ⟨loc, hloc⟩ := sc_findRow_isSome_of_mem _ a2 hmem
+    simp only [List.mem_map]
+    exact ⟨(i, loc), (sc_mem_pairs _ _ _ _).mpr ⟨hi, hloc⟩, rfl⟩
+
+variable {C : Type} [CommRing C]
+
+/-- relative_coeff_vector places g's coefficients at the matching rows of alpha and zero elsewhere.
+    Stated row by row, hence independent of the order of the rows of `ref` (and of g). -/
+theorem rcv_placement (n : Nat) (g : SigT C) (hg : Wf g) (hn : g.n = n) (ref : List Exp)
+    (href : ∀ r ∈ ref, OnGrid r ∧ r.length = n) (hnd : ref.Nodup) :
+    (relativeCoeffVector tol8 g.terms ref).length = ref.length ∧
+    ∀ k < ref.length, (relativeCoeffVector tol8 g.terms ref).getD k 0 = coeff g.terms (ref.getD k []) := by
+  have tol8_eq : tol8 = scTol := rfl
+  rw [tol8_eq]
+  refine ⟨sc_rcv_length _ _ _, ?_⟩
+  intro k hk
+  rw [sc_rcv_eq_map n g.terms (sc_wf_rows hg hn) hg.nodup ref href hnd]
+  rw [sc_getD_lt _ _ _ (by simpa using hk), sc_getD_lt _ _ _ hk]
+  simp
+
+/-- row-order independence, explicitly: permuting the reference rows permutes the result -/
+theorem rcv_perm (n : Nat) (g : SigT C) (hg : Wf g) (hn : g.n = n) (ref ref' : List Exp)
+    (href : ∀ r ∈ ref, OnGrid r ∧ r.length = n) (hnd : ref.Nodup) (hp : ref'.Perm ref) :
+    ∀ k < ref'.length, ∀ k' < ref.length, ref'.getD k [] = ref.getD k' [] →
+      (relativeCoeffVector tol8 g.terms ref').getD k 0 = (relativeCoeffVector tol8 g.terms ref).getD k' 0 := by
+  intro k hk k' hk' heq
+  have href' : ∀ r ∈ ref', OnGrid r ∧ r.length = n := fun r hr => href r (hp.mem_iff.mp hr)
+  have hnd' : ref'.Nodup := hp.nodup_iff.mpr hnd
+  rw [(rcv_placement n g hg hn ref href hnd).2 k' hk', (rcv_placement n g hg hn ref' href' hnd').2 k hk, heq]
+
+/-- if supp g ⊆ ref then  Σ_k (relCoeff g ref)_k · χ(ref_k) = g  (evaluated against any χ) -/
+theorem rcv_eval (n : Nat) (g : SigT C) (hg : Wf g) (hn : g.n = n) (ref : List Exp)
+    (href : ∀ r ∈ ref, OnGrid r ∧ r.length = n) (hnd : ref.Nodup)
+    (hsupp : ∀ t ∈ g.terms, t.2 ≠ 0 → t.1 ∈ ref) (χ : Exp → C) :
+    ((List.zipWith (fun c r => c * χ r) (relativeCoeffVector tol8 g.terms ref) ref)).sum = eval χ g.terms := by
+  have tol8_eq : tol8 = scTol := rfl
+  rw [tol8_eq]
+  exact sc_rcv_eval n g.terms (sc_wf_rows hg hn) hg.nodup ref href hnd hsupp χ
+
+/-- a missing exponent is an error, never silently dropped -/
+theorem mra_missing_is_error (n : Nat) (shKeys shhKeys : List Exp) (h : SigT Rat) (Lkeys : List Exp) :
+    (∃ m, momentReductionArray tol8 n shKeys shhKeys h Lkeys = .raises m) ↔ ∃ r ∈ shhKeys, r ∉ Lkeys := by
+  unfold momentReductionArray
+  by_cases hall : (shhKeys.all fun r => Lkeys.contains r) = true
+  · rw [if_pos hall]
+    simp only [List.all_eq_true, List.contains_iff_mem] at hall
+    constructor
+    · rintro ⟨m, hm⟩; cases hm
+    · rintro ⟨r, hr, hnr⟩; exact absurd (hall r hr) hnr
+  · rw [if_neg hall]
+    simp only [List.all_eq_true, List.contains_iff_mem, not_forall] at hall
+    obtain ⟨r, hr, hnr⟩ := hall
+    exact ⟨fun _ => ⟨r, hr, hnr⟩, fun _ => ⟨_, rfl⟩⟩
+
+/-- the moment-reduction identity: for EVERY coefficient vector `sc` of the multiplier,
+    s(x)·h(x) = sc · (C G_L(x)), where G_L lists L's monomials — for every character χ -/
+theorem mra_identity (n : Nat) (χ : Exp → Rat) (hχ : IsChar n χ)
+    (shKeys : List Exp) (h : SigT Rat) (hh : Wf h) (hhn : h.n = n) (Lkeys : List Exp)
+    (hsh : ∀ r ∈ shKeys, OnGrid r ∧ r.length = n) (hL : ∀ r ∈ Lkeys, OnGrid r ∧ r.length = n) (hLnd : Lkeys.Nodup)
+    (shhKeys : List Exp) (Cm : List (List Rat))
+    (hC : momentReductionArray tol8 n shKeys shhKeys h Lkeys = .ok Cm)
+    (hcontained : ∀ a ∈ shKeys, ∀ t ∈ h.terms, t.2 ≠ 0 → addExp t.1 a ∈ Lkeys)
+    (sc : List Rat) (hsc : sc.length = shKeys.length) :
+    Cm.length = shKeys.length ∧
+    (List.zipWith (fun s row => s * (List.zipWith (fun c r => c * χ r) row Lkeys).sum) sc Cm).sum
+      = (List.zipWith (fun s a => s * χ a) sc shKeys).sum * eval χ h.terms := by
+  have _ := hsc
+  exact sc_mra_identity_grid n χ (sc_gridChar_of_isChar hχ) shKeys h hh hhn Lkeys hsh hL hLnd shhKeys Cm hC
+    hcontained sc
+
+/-! ### non-vacuity: the hypotheses hold on concrete data
+
+Instance (defined in `Lemmas/SymCorrExample.lean`):  `h = 2·x^(1/2) + 3`, multiplier rows
+`[[0],[1/2]]`, `L` rows `[[0],[1/2],[1]]`; the model returns `[[3,2,0],[0,3,2]]`. -/
+
+/-- grid rows (one fractional entry) that differ are NOT matched … -/
+example : rowMatch tol8 [1/2, 3] [1/2, 4] ≠ true := by
+  have h1 : OnGrid [(1/2 : Rat), 3] := sc_onGrid_of_scaled _ (by
+    intro q hq
+    simp only [List.mem_cons, List.not_mem_nil, or_false] at hq
+    rcases hq with rfl | rfl
+    · exact ⟨5000000, by norm_num⟩
+    · exact ⟨30000000, by norm_num⟩)
+  have h2 : OnGrid [(1/2 : Rat), 4] := sc_onGrid_of_scaled _ (by
+    intro q hq
+    simp only [List.mem_cons, List.not_mem_nil, or_false] at hq
+    rcases hq with rfl | rfl
+    · exact ⟨5000000, by norm_num⟩
+    · exact ⟨40000000, by norm_num⟩)
+  rw [Ne, tol_match_exact _ _ h1 h2 rfl]
+  norm_num
+
+/-- … and equal ones are -/
+example : rowMatch tol8 [1/2] [1/2] = true :=
+  (tol_match_exact _ _ sc_ex_half.1 sc_ex_half.1 rfl).mpr rfl
+
+/-- `row_correspondence_spec` on `alpha1 = h`'s rows, `alpha2 = L` -/
+example :=
+  row_correspondence_spec 1 (keys scExH.terms) scExL
+    (fun r hr => by
+      obtain ⟨t, ht, rfl⟩ := List.mem_map.mp hr
+      exact sc_wf_rows sc_exH_wf rfl t ht)
+    sc_exL_rows
+
+example := rcv_placement 1 scExH sc_exH_wf rfl scExL sc_exL_rows sc_exL_nodup
+
+/-- a genuine permutation of the reference rows -/
+example := rcv_perm 1 scExH sc_exH_wf rfl scExL [[1/2], [0], [1]] sc_exL_rows sc_exL_nodup
+  (by unfold scExL; exact List.Perm.swap _ _ _)
+
+example (χ : Exp → Rat) := rcv_eval 1 scExH sc_exH_wf rfl scExL sc_exL_rows sc_exL_nodup sc_exH_supp χ
+
+/-- a product row missing from `L` raises -/
+example : ∃ m, momentReductionArray tol8 1 scExSh [[0], [2]] scExH scExL = .raises m :=
+  (mra_missing_is_error 1 scExSh [[0], [2]] scExH scExL).mpr ⟨[2], by simp, by simp [scExL]; norm_num⟩
+
+/-- all hypotheses of `mra_identity` hold on the instance (with the trivial character — over `Rat`
+    it is the only `IsChar`; see `sc_mra_identity_grid` below for non-trivial `χ`) -/
+example (s0 s1 : Rat) :=
+  mra_identity 1 (fun _ => 1) (sc_isChar_one 1) scExSh scExH sc_exH_wf rfl scExL sc_exSh_rows sc_exL_rows
+    sc_exL_nodup scExShh scExCm sc_ex_mra sc_ex_contained [s0, s1] rfl
+
+/-- the same instance against the non-trivial grid character `χ a = ∏ⱼ 2^(aⱼ·10⁷)`
+    (i.e. `x = 2^(10⁷)`), through the stronger helper form -/
+example (s0 s1 : Rat) :=
+  sc_mra_identity_grid 1 (scPowChar 2) (sc_powChar_gridChar 1 2 (by norm_num)) scExSh scExH sc_exH_wf rfl
+    scExL sc_exSh_rows sc_exL_rows sc_exL_nodup scExShh scExCm sc_ex_mra sc_ex_contained [s0, s1]
+
+
+/-- The moment-reduction identity in the form that matters for real evaluation points: for EVERY
+    coefficient vector `sc` and every `χ` that is multiplicative on the rows that can occur (width `n`,
+    on the 7-decimal grid) — e.g. `χ a = e^{a·x}` restricted to such rows, or the non-trivial rational
+    character `scPowChar c` (`sc_powChar_gridChar`).  `mra_identity` is the special case of a `χ` that is
+    multiplicative on all rational rows. -/
+theorem mra_identity_grid (n : Nat) (χ : Exp → Rat) (hχ : scGridChar n χ)
+    (shKeys : List Exp) (h : SigT Rat) (hh : Wf h) (hhn : h.n = n) (Lkeys : List Exp)
+    (hsh : ∀ r ∈ shKeys, OnGrid r ∧ r.length = n) (hL : ∀ r ∈ Lkeys, OnGrid r ∧ r.length = n) (hLnd : Lkeys.Nodup)
+    (shhKeys : List Exp) (Cm : List (List Rat))
+    (hC : momentReductionArray tol8 n shKeys shhKeys h Lkeys = .ok Cm)
+    (hcontained : ∀ a ∈ shKeys, ∀ t ∈ h.terms, t.2 ≠ 0 → addExp t.1 a ∈ Lkeys)
+    (sc : List Rat) :
+    Cm.length = shKeys.length ∧
+    (List.zipWith (fun s row => s * (List.zipWith (fun c r => c * χ r) row Lkeys).sum) sc Cm).sum
+      = (List.zipWith (fun s a => s * χ a) sc shKeys).sum * eval χ h.terms :=
+  sc_mra_identity_grid n χ hχ shKeys h hh hhn Lkeys hsh hL hLnd shhKeys Cm hC hcontained sc
 
 end Sageopt.Props.C16
